@@ -147,6 +147,22 @@ Definition read_vector (s : mstream) (sz : N) : rres * mstream :=
     else (RNone, set_state s1 (ms_eof s1) true (ms_bad s1))
   else (RNone, s0).
 
+(* ---- the destination of a vector read: std::vector<T> &t may hold anything before the call ---- *)
+Definition zero_elem (sz : N) : list byte := repeat 0 (N.to_nat sz).
+(* t.resize(n): the first n elements are kept, new ones are value-initialised *)
+Definition vresize (sz : N) (dest : list (list byte)) (n : nat) : list (list byte) :=
+  firstn n dest ++ repeat (zero_elem sz) (n - length dest).
+(* memcpy(t.data(), input_location(), k * sizeof(T)): the first k elements are overwritten *)
+Definition voverwrite (dest payload : list (list byte)) : list (list byte) :=
+  payload ++ skipn (length payload) dest.
+(* read_vector(t) on a destination with previous contents dest: what t holds afterwards.  When nothing is
+   delivered (length word missing, or more elements announced than bytes left) t is not touched *)
+Definition read_vector_into (s : mstream) (sz : N) (dest : list (list byte)) : rres * mstream * list (list byte) :=
+  match read_vector s sz with
+  | (RVec v, s') => (RVec v, s', voverwrite (vresize sz dest (length v)) v)
+  | (r, s') => (r, s', dest)
+  end.
+
 (* ---- items and shapes: sequences of writes and the matching sequence of reads ---- *)
 Inductive item :=
 | IObj (b : list byte)
